@@ -58,7 +58,8 @@ CF_BT = ["u8", "u16", "u32"]
 # (nbits, es, bt, flags) instantiated in the large-configuration TU: half, bfloat_t, single, duble, cfloat<24,5>, <40,8>, …
 CF_LARGE = [(16, 5, "u16", "100"), (16, 8, "u16", "100"), (32, 8, "u32", "100"), (64, 11, "u32", "100"),
             (24, 5, "u8", "110"), (24, 5, "u32", "001"), (24, 5, "u16", "100"), (40, 8, "u8", "111"), (40, 8, "u32", "100"),
-            (40, 8, "u16", "010"), (16, 5, "u8", "011"), (16, 5, "u32", "110"), (12, 4, "u16", "101"), (32, 8, "u8", "000")]
+            (40, 8, "u16", "010"), (16, 5, "u8", "011"), (16, 5, "u32", "110"), (12, 4, "u16", "101"), (32, 8, "u8", "000"),
+            (32, 8, "u8", "100"), (26, 6, "u8", "110"), (64, 11, "u16", "100"), (48, 8, "u16", "100")]   # 4-limb and 3-limb storage with subnormals
 
 
 def cf_flags(es):
